@@ -570,7 +570,7 @@ def mb_setup(eng):
     def merge(e, a, k, n):
         fault(e, 'merge')
         e.ghost['merged'] = True
-        e.ghost['merged_inputs'] = [x for x in a[1:] if not str(x).startswith('-')]
+        e.ghost['merged_inputs'] = e.ghost.get('merged_inputs', []) + [x for x in a[1:] if not str(x).startswith('-')]
 
     def index(e, a, k, n):
         fault(e, 'index')
@@ -614,12 +614,13 @@ def mb_setup(eng):
 merge_bams = Contract(
     PROP, FB + '::merge_bams', name='merge_bams',
     params={'bams': ('const', ['part1.bam', 'part2.bam']), 'output_path': ('const', 'out.bam'), 'threads': ('const', 4)},
-    cases=[{}, {'bams': ('const', ['part1.bam'])}, {'bams': ('const', ['part1.bam', 'part2.bam', 'part3.bam'])}],
+    cases=[{}, {'bams': ('const', ['part1.bam'])}, {'bams': ('const', ['part1.bam', 'part2.bam', 'part3.bam'])},
+           {'bams': ('const', ['part%d.bam' % i for i in range(300)])}],      # more parts than any batch size one would pick
     setup=mb_setup,
     ensures={
         'returns_only_with_a_merged_and_indexed_output': 'GHOST["merged"] and GHOST["indexed"]',
         # conservation: whatever a part holds (possibly only records without coordinate), it is one of the merged inputs
-        'every_part_is_merged': 'GHOST["merged_inputs"] == list(BAMS0)',
+        'every_part_is_merged': 'sorted([x for x in GHOST["merged_inputs"] if x != "out.bam"]) == sorted(list(BAMS0))',
         'parts_are_removed_only_after_that': 'not GHOST["removed_before_done"]',
     },
     raises={'Exception': 'True', 'KeyboardInterrupt': 'True'},
